@@ -12,13 +12,15 @@ func init() {
 var c10Scope = errScope{
 	pkgs: map[string]bool{
 		"internal/logdb": true, "internal/logdb/kv": true, "internal/logdb/kv/pebble": true,
-		"internal/tan": true, "internal/fileutil": true,
+		"internal/tan": true,
 	},
 	files: map[string]bool{},
 }
 
 // accepted idioms, each confirmed by reading the site.
-var c10Accept = map[string]string{}
+var c10Accept = map[string]string{
+	"E3:internal/tan.newWriter->io.Seeker.Seek": "lseek(fd, 0, SEEK_CUR) on an open regular file performs no I/O and cannot fail with a storage error (code inherited from pebble's record.NewLogWriter); the fallback offset 0 is only taken for non-seekable writers",
+}
 
 func runC10(e *Engine, r *Report) {
 	st := e.CheckErrDiscipline(r, c10Scope, c10Accept)
